@@ -702,6 +702,13 @@ example : splice { kind := .bump } (Vec.mk' [1, 2, 3, 4, 5] 0) 1 3 [10, 11, 12, 
 example : splice { kind := .bump, bombs := [3] } (Vec.mk' [1, 2, 3, 4, 5, 6] 0) 1 5 [10, 11] 0 none 1000 [] =
     .ok ⟨{ slots := I [1, 6] ++ H 4, len := 2, dropLog := [2, 3, 4, 5, 10, 11] }, .panic true, []⟩ := by decide
 
+/-- `Splice` is double-ended: `[1,…,6].splice(1..5, [10])`, one `next_back()` hands out 5; then the `Splice` is
+    dropped and the destructor of 2 panics inside `for_each(drop)`: the unwind runs `Drain::drop`, which drops what
+    the iterator STILL covers — 3 and 4, not the 5 that was already handed out — and moves the tail back; 10 is
+    dropped with `replace_with`.  (`splice_drops_once` holds for every script of front / back pulls.) -/
+example : splice { kind := .bump, bombs := [2] } (Vec.mk' [1, 2, 3, 4, 5, 6] 0) 1 5 [10] 100 none 1000 [.back] =
+    .ok ⟨{ slots := I [1, 6] ++ H 4, len := 2, dropLog := [2, 3, 4, 10], escaped := [5] }, .panic true, []⟩ := by decide
+
 /-- a LYING source (`size_hint().0 = 2^63-1`): the full vector `[1,2,3,4]`, `splice(1..2, [10,11,12])`: 10 fills the
     range, `move_tail(2^63-1)` → `buf_reserve` panics with "capacity overflow" before anything moved; the unwind
     leaves `[1,10,3,4]`, the range's 2 and the unwritten 11, 12 are dropped once -/
